@@ -48,7 +48,19 @@ int kindFromName(const char* s);
 
 enum { PH_SETUP = 0, PH_BODY = 1, PH_TEARDOWN = 2, PH_PRE = 3, PH_POST = 4, PH_PROC = 5 };
 enum { N_SLOTS = 48, N_TARGETS = 8, N_VALUES = 6, MAX_SET = 32 };
-enum { N_PASS_KINDS = 14, N_FAILCPP_KINDS = 24, N_FAILC_KINDS = 20 };
+enum { N_PASS_KINDS = 14, N_FAILCPP_KINDS = 28, N_FAILC_KINDS = 20 };
+// Operand pairs for the string comparisons of K_FAIL_CPP kinds 24..27 (b = pair): the operands differ first at index 'at'. Several pairs differ only in
+// bytes whose printed forms coincide (every byte above 0x7f is rendered alike), contain control characters, are empty or long.
+struct OperandPair { const char* expected; const char* actual; int at; };
+enum { N_OPERAND_PAIRS = 10 };
+inline const OperandPair& operandPair(int64_t i) {
+    static char longA[400], longB[400]; static bool init = false;
+    if (!init) { init = true; for (int k = 0; k < 399; k++) longA[k] = longB[k] = (char)(0x80 + k % 64); longA[398] = (char)0xf1; longB[398] = (char)0xf2; longA[399] = longB[399] = 0; }
+    static const OperandPair t[N_OPERAND_PAIRS] = {
+        { "\x80", "\x81", 0 }, { "caf\xc3\xa9", "caf\xc3\xa8", 4 }, { "a\x01z", "a\x02z", 1 }, { "", "x", 0 }, { "same\xffprefix\xfe", "same\xffprefix\xfd", 11 },
+        { "line\nbreak", "line\rbreak", 4 }, { longA, longB, 398 }, { "abc", "abd", 2 }, { "\xe2\x82\xac 5", "\xe2\x82\xad 5", 2 }, { "tail\x90", "tail\x90\x91", 5 } };
+    return t[(size_t)(i < 0 ? 0 : i) % N_OPERAND_PAIRS];
+}
 
 inline bool isTerminating(int k) { return k == K_FAIL_CPP || k == K_FAIL_C || k == K_THROW_STD || k == K_THROW_FOREIGN; }
 
